@@ -175,9 +175,35 @@ def gen_planted(rng, n):
                 if any(plant[abs(x)] == (x > 0) for x in c):
                     return c
         clauses = [cl(3) for _ in range(int(nv * 4.06))] + [cl(2) for _ in range(nv // 4)]
+        lim = rng.choice([1, 3, 3])
+        if rng.random() < 0.4:
+            # a few almost free variables on top of the hard core: the enumeration collects dozens of blocking clauses between the
+            # conflict-heavy stretches, so reduce_db runs over a database that holds both kinds of clauses
+            free = list(range(nv + 1, nv + rng.randint(4, 6)))
+            clauses.append(free + [1 if plant[1] else -1])
+            plant += [True] * len(free)
+            nv += len(free)
+            lim = 48
         # budget: enough conflicts to pass the reduce_db threshold several times, small enough that the call is over in seconds
-        out.append({"clauses": clauses, "assumptions": [], "limit": 1, "max_conflicts": 15000, "max_restarts": 10000,
+        # some with solution_limit 3: the database then holds blocking clauses when reduce_db runs over >= 2000 learned clauses
+        out.append({"clauses": clauses, "assumptions": [], "limit": lim, "max_conflicts": 15000, "max_restarts": 10000,
                     "luby_factor": 100, "sparse": True, "planted": [v if plant[v] else -v for v in range(1, nv + 1)]})
+    return out
+
+
+def gen_select_php(rng, n):
+    """a selector s (variable 1, decided first): s true forces all pigeon variables false and leaves k free variables (2^k models,
+    found at once); s false leaves a pigeonhole formula PHP(8,7) - unsatisfiable and worth thousands of conflicts.  The
+    enumeration therefore collects its blocking clauses first and then runs reduce_db many times over a database that holds them;
+    if they were dropped, the same models would be found again after the refutation."""
+    out = []
+    for _ in range(n):
+        k = rng.randint(2, 3)
+        off = 1 + k
+        php = [[(x + off if x > 0 else x - off) for x in c] for c in pigeonhole(8, 7)]
+        cls = [[1] + c for c in php] + [[-1, -(v + off)] for v in range(1, 57)] + [list(range(2, 2 + k)) + [1]]
+        out.append({"clauses": cls, "assumptions": [], "limit": 1000, "max_conflicts": 100000, "max_restarts": 10000,
+                    "luby_factor": rng.choice([100, 100, 30]), "sparse": True})
     return out
 
 
